@@ -24,7 +24,7 @@ theorem src_DeleteByEngine_expected : src_DeleteByEngine = "{ if delType == Shar
 
 theorem src_DeleteIndexGroup_expected : src_DeleteIndexGroup = "{ rpi, err := data.RetentionPolicy(database, policy) if err != nil { return err } for i := range rpi.IndexGroups { if rpi.IndexGroups[i].ID == id { rpi.IndexGroups[i].DeletedAt = time.Now().UTC() break } } return nil }" := by rfl
 
-theorem src_pruneIndexGroups_expected : src_pruneIndexGroups = "{ data.WalkDatabases(func(db *DatabaseInfo) { db.WalkRetentionPolicy(func(rp *RetentionPolicyInfo) { for idx := 0; idx < len(rp.IndexGroups); { if id >= rp.IndexGroups[idx].Indexes[0].ID && id <= rp.IndexGroups[idx].Indexes[len(rp.IndexGroups[idx].Indexes)-1].ID { pos := sort.Search(len(rp.IndexGroups[idx].Indexes), func(i int) bool { return rp.IndexGroups[idx].Indexes[i].ID >= id }) rp.IndexGroups[idx].Indexes[pos].MarkDelete = true } if rp.IndexGroups[idx].canDelete() { rp.IndexGroups = append(rp.IndexGroups[:idx], rp.IndexGroups[idx+1:]...) } else { idx++ } } }) }) return nil }" := by rfl
+theorem src_pruneIndexGroups_expected : src_pruneIndexGroups = "{ data.WalkDatabases(func(db *DatabaseInfo) { db.WalkRetentionPolicy(func(rp *RetentionPolicyInfo) { for idx := 0; idx < len(rp.IndexGroups); { if id >= rp.IndexGroups[idx].Indexes[0].ID && id <= rp.IndexGroups[idx].Indexes[len(rp.IndexGroups[idx].Indexes)-1].ID { pos := sort.Search(len(rp.IndexGroups[idx].Indexes), func(i int) bool { return rp.IndexGroups[idx].Indexes[i].ID >= id }) if rp.IndexGroups[idx].Indexes[pos].ID == id { rp.IndexGroups[idx].Indexes[pos].MarkDelete = true } } if rp.IndexGroups[idx].canDelete() { rp.IndexGroups = append(rp.IndexGroups[:idx], rp.IndexGroups[idx+1:]...) } else { idx++ } } }) }) return nil }" := by rfl
 
 theorem src_PruneGroups_expected : src_PruneGroups = "{ if shardGroup { return data.pruneShardGroups(id) } else { return data.pruneIndexGroups(id) } }" := by rfl
 
@@ -88,7 +88,7 @@ theorem tierMoving_src_expected : tierMoving_src = "4" := by rfl
 
 theorem src_GetExpiredShards_expected : src_GetExpiredShards = "{ t := time.Now().UTC() markDelSgInfos := []meta2.ExpiredShardInfos{} expiredShards := []meta2.ExpiredShardInfos{} dataBases := c.Databases() for dbName, db := range dataBases { if db.Options == nil || db.MarkDeleted { continue } obsOptions := db.Options dbPtInfos, err := c.DBPtView(dbName) if err != nil { continue } for rpName, rp := range db.RetentionPolicies { if rp.MarkDeleted { continue } for i := range rp.ShardGroups { if !rp.ShardGroups[i].Deleted() { if rp.Duration != 0 && rp.ShardGroups[i].EndTime.Add(rp.Duration).Before(t) { markDelSgInfos = append(markDelSgInfos, meta2.ExpiredShardInfos{Database: dbName, Policy: rpName, ShardGroupId: rp.ShardGroups[i].ID}) } continue } if rp.ShardGroups[i].DeletedAt.Add(RetentionDelayedTime).After(t) { continue } shardPaths := []string{} shardIds := []uint64{} for j := range rp.ShardGroups[i].Shards { if rp.ShardGroups[i].Shards[j].MarkDelete { continue } ptId := rp.ShardGroups[i].Shards[j].Owners[0] if dbPtInfos[ptId].Owner.NodeID != c.nodeID && dbPtInfos[ptId].Status == meta2.Online { continue } logPath := obs.GetShardPath( rp.ShardGroups[i].Shards[j].ID, rp.ShardGroups[i].Shards[j].IndexID, rp.ShardGroups[i].Shards[j].Owners[0], rp.ShardGroups[i].StartTime, rp.ShardGroups[i].EndTime, db.Name, rp.Name) shardPaths = append(shardPaths, logPath) shardIds = append(shardIds, rp.ShardGroups[i].Shards[j].ID) } expiredShards = append(expiredShards, meta2.ExpiredShardInfos{Database: dbName, Policy: rpName, ShardGroupId: rp.ShardGroups[i].ID, ShardIds: shardIds, ShardPaths: shardPaths, ObsOpts: obsOptions}) } } } return markDelSgInfos, expiredShards }" := by rfl
 
-theorem src_GetExpiredIndexes_expected : src_GetExpiredIndexes = "{ t := time.Now().UTC() expiredIndexes := []meta2.ExpiredIndexInfos{} dataBases := c.Databases() for dbName, db := range dataBases { if db.Options == nil || db.MarkDeleted { continue } dbPtInfos, err := c.DBPtView(dbName) if err != nil { continue } for rpName, rp := range db.RetentionPolicies { if rp.MarkDeleted { continue } for i := range rp.IndexGroups { if rp.Duration == 0 || rp.IndexGroups[i].EndTime.Add(rp.Duration+RetentionDelayedTime).After(t) { continue } indexIds := make([]uint64, 0, len(rp.IndexGroups[i].Indexes)) for j := range rp.IndexGroups[i].Indexes { ptId := rp.IndexGroups[i].Indexes[j].Owners[0] if dbPtInfos[ptId].Owner.NodeID != c.nodeID && dbPtInfos[ptId].Status == meta2.Online { continue } indexIds = append(indexIds, rp.IndexGroups[i].Indexes[j].ID) } expiredIndexes = append(expiredIndexes, meta2.ExpiredIndexInfos{Database: dbName, Policy: rpName, IndexGroupID: rp.IndexGroups[i].ID, IndexIDs: indexIds}) } } } return expiredIndexes }" := by rfl
+theorem src_GetExpiredIndexes_expected : src_GetExpiredIndexes = "{ t := time.Now().UTC() expiredIndexes := []meta2.ExpiredIndexInfos{} dataBases := c.Databases() for dbName, db := range dataBases { if db.Options == nil || db.MarkDeleted { continue } dbPtInfos, err := c.DBPtView(dbName) if err != nil { continue } for rpName, rp := range db.RetentionPolicies { if rp.MarkDeleted { continue } for i := range rp.IndexGroups { if rp.Duration == 0 || rp.IndexGroups[i].EndTime.Add(rp.Duration).Add(RetentionDelayedTime).After(t) { continue } indexIds := make([]uint64, 0, len(rp.IndexGroups[i].Indexes)) for j := range rp.IndexGroups[i].Indexes { ptId := rp.IndexGroups[i].Indexes[j].Owners[0] if dbPtInfos[ptId].Owner.NodeID != c.nodeID && dbPtInfos[ptId].Status == meta2.Online { continue } indexIds = append(indexIds, rp.IndexGroups[i].Indexes[j].ID) } expiredIndexes = append(expiredIndexes, meta2.ExpiredIndexInfos{Database: dbName, Policy: rpName, IndexGroupID: rp.IndexGroups[i].ID, IndexIDs: indexIds}) } } } return expiredIndexes }" := by rfl
 
 theorem src_RevertRetentionPolicyDelete_expected : src_RevertRetentionPolicyDelete = "{ rp, err := c.RetentionPolicy(database, name) if err != nil { return err } if rp == nil || rp.MarkDeleted { return meta2.ErrRetentionPolicyNotFound(name) } for i := range rp.ShardGroups { if !rp.ShardGroups[i].Deleted() { continue } err := c.DeleteShardGroup(database, name, rp.ShardGroups[i].ID, meta2.CancelDelete) if err != nil { return err } } return nil }" := by rfl
 
